@@ -174,7 +174,12 @@ fn parse_ifdata_item(
         A2mlTypeSpec::Sequence(seqspec) => {
             let mut seqitems = Vec::new();
             let mut checkpoint = parser.get_tokenpos();
-            while let Ok(item) = parse_ifdata_item(parser, context, seqspec) {
+            // in non-strict mode an identifier is tolerated in place of a string. The items of a sequence are
+            // optional, so an identifier where an item would begin with a string is the tag that follows the sequence
+            while !sequence_ends_at_identifier(parser, seqspec) {
+                let Ok(item) = parse_ifdata_item(parser, context, seqspec) else {
+                    break;
+                };
                 if parser.get_tokenpos() == checkpoint {
                     // the sequence item (e.g. a taggedstruct without any of its optional items) matched
                     // without consuming any input: it would match again at the same position forever
@@ -197,6 +202,28 @@ fn parse_ifdata_item(
             GenericIfData::TaggedUnion(result)
         }
     })
+}
+
+// sequence_ends_at_identifier()
+// check if the next item of a sequence would begin with a string, while the next token is an identifier
+fn sequence_ends_at_identifier(parser: &mut ParserState, seqspec: &A2mlTypeSpec) -> bool {
+    fn begins_with_string(spec: &A2mlTypeSpec) -> bool {
+        match spec {
+            A2mlTypeSpec::Array(arraytype, _) => {
+                **arraytype == A2mlTypeSpec::Char || begins_with_string(arraytype)
+            }
+            A2mlTypeSpec::Struct(structspec) => structspec.first().is_some_and(begins_with_string),
+            _ => false,
+        }
+    }
+    begins_with_string(seqspec)
+        && matches!(
+            parser.peek_token(),
+            Some(A2lToken {
+                ttype: A2lTokenType::Identifier,
+                ..
+            })
+        )
 }
 
 // parse_ifdata_taggedstruct()
